@@ -15,6 +15,7 @@ class _Cexptrk_Potential_Function(object):
     self._potential_form_tuple = potential_form_tuple
     self._local_symbol_table = self._init_symbol_table()
     self._expression = None
+    self._evaluating = False
 
   def _init_symbol_table(self):
     local_symbol_table = cexprtk.Symbol_Table({}, add_constants = True)
@@ -44,9 +45,15 @@ class _Cexptrk_Potential_Function(object):
     if len(args) != len(parameter_names):
       sig = "{}({})".format(self._potential_form_tuple.signature.label, ",".join(parameter_names))
       raise Potential_Form_Exception("potential-form '{}' requires {} arguments but was called with {}".format(sig, len(parameter_names), len(args)))
+    if self._evaluating:
+      # The expression and its parameters are one object per form: a form that (directly or through other forms)
+      # calls itself would overwrite the parameters of the evaluation in progress and never return.
+      raise Potential_Form_Exception("potential-form '{}' is defined in terms of itself".format(self._potential_form_tuple.signature.label))
+
     for (pn, v) in zip(parameter_names, args):
       self._local_symbol_table.variables[pn] = v
 
+    self._evaluating = True
     try:
       if not self._expression:
         try:
@@ -64,6 +71,8 @@ class _Cexptrk_Potential_Function(object):
         sig = sig, 
         expression = self._potential_form_tuple.expression)
       raise Potential_Form_Exception(msg)
+    finally:
+      self._evaluating = False
       
 
 
